@@ -215,3 +215,69 @@ func meekRdBufInvariant(c *Ctx, p *Prog, rule string) {
 		ob.HoldNT("%d non-nil store(s), each of a provably non-empty buffer; %d consuming site(s), each followed by the Len()==0 → nil re-check", nStore, nCons)
 	}
 }
+
+// meekResponseRules: (a) what roundTrip buffers per response is bounded by the reader it hands to
+// io.ReadAll (io.LimitReader with a constant <= 65536) — not by a header the peer controls;
+// (b) roundTrip never reports success without the body it read: a return with a nil error returns
+// the io.ReadAll result (an "empty response" shortcut keyed on Content-Length drops chunked bodies).
+func meekResponseRules(c *Ctx, p *Prog, rule string) {
+	rt := p.Func("transports/meeklite:(*meekConn).roundTrip")
+	ob := c.Obl(rule, "transports/meeklite:(*meekConn).roundTrip#bounded-complete-read", "every response body is read through io.ReadAll(io.LimitReader(body, n)) with a constant n <= 65536 (the peer cannot make the client buffer more), and roundTrip reports success only with what that read returned")
+	if rt == nil {
+		ob.Undecide("roundTrip not found")
+		return
+	}
+	bad := ""
+	var reads []*ssa.Call
+	for _, fn := range p.Funcs {
+		if fn.Pkg == nil || relPkg(fn.Pkg.Pkg.Path()) != "transports/meeklite" {
+			continue
+		}
+		for _, call := range p.CallsIn(fn, "io.ReadAll", "io/ioutil.ReadAll") {
+			cv, ok := call.(*ssa.Call)
+			if !ok {
+				continue
+			}
+			reads = append(reads, cv)
+			lr, _ := callOf(unspill(stripConv(cv.Common().Args[0])))
+			if mi, isMI := unspill(cv.Common().Args[0]).(*ssa.MakeInterface); isMI {
+				lr, _ = callOf(unspill(mi.X))
+			}
+			if lr == nil || p.CalleeID(lr.Common()) != "io.LimitReader" {
+				bad = "io.ReadAll at " + p.InstrPos(cv) + " reads an unlimited body: a response without Content-Length (chunked) is buffered whole"
+				continue
+			}
+			if k, ok := intConst(lr.Common().Args[1]); !ok || k <= 0 || k > 65536 {
+				bad = "the limit at " + p.InstrPos(lr) + " is not a constant <= 65536"
+			}
+		}
+	}
+	if len(reads) == 0 && bad == "" {
+		bad = "no io.ReadAll of the response body found"
+	}
+	ei := errResultIndex(rt)
+	for _, r := range returnsOf(rt) {
+		ev := unspill(r.Results[ei])
+		if k, ok := ev.(*ssa.Const); !ok || !k.IsNil() {
+			// error value not constantly nil: data may be anything only if it is the read's own result pair
+			if dk, isK := unspill(r.Results[0]).(*ssa.Const); isK && dk.IsNil() {
+				continue
+			}
+		}
+		rc, idx := callOf(unspill(r.Results[0]))
+		isRead := false
+		for _, rd := range reads {
+			if rc == rd && idx == 0 {
+				isRead = true
+			}
+		}
+		if !isRead {
+			bad = "the return at " + p.InstrPos(r) + " can report success without the body io.ReadAll returned"
+		}
+	}
+	if bad != "" {
+		ob.Violate("%s", bad)
+	} else {
+		ob.HoldNT("%d read(s), each io.ReadAll(io.LimitReader(.., <= 65536)); success returns hand out the read's result", len(reads))
+	}
+}
